@@ -1,5 +1,7 @@
 import Tmv.Lemmas.MempoolV0
 import Tmv.Lemmas.MempoolV1
+import Tmv.Lemmas.MempoolV0Async
+import Tmv.Lemmas.MempoolKeyed
 /-! # C12 — Mempool contents stay unique, bounded, current and correctly ordered
 
 Theorems about the models `Tmv.Mempool.V0` (mempool/v0 CListMempool) and `Tmv.Mempool.V1`
@@ -223,6 +225,117 @@ theorem v0_cache_bounded (cfg : V0.Cfg) (h : Int) (ops : List V0.Op) :
 example : V0.keys (V0.update (V0.run (V0.init exCfg0b 0) [.check [1] {}, .check [2] {}])
     1 [] none none (fun t => if t = [1] then { code := 1 } else {})) = [[2]] := by decide
 
+/-- **senders_recorded** (v0, supporting; used by the reactor not to send a tx back to a peer it
+came from): when `CheckTx` from `peer` gets past the early guards and is not rejected by the
+application / post-check — answered `ErrTxInCache`, or handed to the application and accepted — and
+the transaction is in the pool afterwards (newly admitted or already there), `peer` is among the
+entry's senders. Every state. -/
+theorem v0_senders_recorded (s : V0.State) (tx : Bytes) (v : Verdict) (peer : Nat) :
+    ((V0.checkTxFrom s tx v peer).2 = .inCache ∨
+      ((V0.checkTxFrom s tx v peer).2 = .ok ∧ accepted s.post v = true)) →
+    ∀ e ∈ (V0.checkTxFrom s tx v peer).1.txs, e.tx = tx → peer ∈ e.senders := by
+  unfold V0.checkTxFrom
+  simp only
+  split
+  · intro _; exact V0.recordSender_has _ tx peer
+  · split
+    · intro _; exact V0.recordSender_has _ tx peer
+    · rename_i hacc
+      intro h
+      rcases h with h | ⟨_, h⟩
+      · simp_all
+      · exact absurd h hacc
+  · rename_i h1 h2
+    intro h
+    rcases h with h | ⟨h, _⟩
+    · exact absurd h h1
+    · exact absurd h h2
+
+/-- two peers submit the same tx, cache smaller than the pool: one entry, both peers recorded -/
+example : ((V0.run (V0.init exCfg0b 0) [.check [1] {} 7, .check [2] {} 7, .check [1] {} 9]).txs.map
+    (fun e => (e.tx, e.senders))) = [([1], [7, 9]), ([2], [7])] := by decide
+
+/-! ## v0 over an asynchronous FIFO ABCI client (socket / grpc discipline)
+
+`V0.AState`: `CheckTx` only queues its request, responses are handled one at a time later
+(`globalCb`, then the request's callback), `Update` is preceded by `FlushAppConn` and only queues the
+recheck requests; `resCbRecheck` is modelled WITH its mismatch-skipping loop. Histories: any
+interleaving of sends, response deliveries and updates. -/
+
+/-- the state invariants survive every asynchronous history, and the modelled code never panics
+(neither "recheck cursor is not nil in reqResCb" nor a nil dereference in the skipping loop) -/
+theorem v0_async_invariants (cfg : V0.Cfg) (h : Int) (ops : List V0.AOpF) :
+    let a := V0.arunF (V0.ainit cfg h) ops
+    (V0.keys a.s).Nodup ∧ a.s.txsMap.Perm (V0.keys a.s) ∧ a.s.txsBytes = bytesOf (V0.keys a.s) ∧
+      a.panicked = false := by
+  obtain ⟨hi, hp⟩ := V0.aphase_facts (V0.aphase_runF ops (V0.aphase_init cfg h))
+  exact ⟨hi.nodup, hi.map, hi.bytes, hp⟩
+
+/-- the mismatch-skipping loop of `resCbRecheck` is dead under the FIFO discipline: whenever the
+recheck cursor stands on an entry, the next response to be handled is the recheck answer for
+exactly that entry -/
+theorem v0_async_skip_loop_dead (cfg : V0.Cfg) (h : Int) (ops : List V0.AOpF) (c : Bytes) :
+    let a := V0.arunF (V0.ainit cfg h) ops
+    a.cursor = some c → ∃ q, a.queue = V0.Req.recheck c :: q := by
+  intro a hc
+  rcases V0.aphase_runF ops (V0.aphase_init cfg h) with hi | ⟨kept, rem, firsts, hr⟩
+  · have := hi.cursor; rw [this] at hc; cases hc
+  · have h1 := hr.cursor
+    have h2 := hr.queue
+    cases rem with
+    | nil => rw [h1] at hc; cases hc
+    | cons c' rem =>
+      rw [h1] at hc
+      simp at hc; subst hc
+      exact ⟨rem.map V0.Req.recheck ++ firsts, h2⟩
+
+/-- **recheck_keeps_accepted_only** for the asynchronous discipline: after an `Update` that started
+a recheck, once as many responses have been handled as the pool had entries (interleaved with any
+number of new `CheckTx` calls, whose answers queue up behind), every transaction in the pool was
+accepted by the recheck. -/
+theorem v0_async_recheck_keeps_accepted_only (cfg : V0.Cfg) (h0 : Int) (ops : List V0.AOpF)
+    (ht : Int) (block : List (Bytes × Nat)) (pre post : Option Int) (rv : Bytes → Verdict)
+    (between : List V0.AOp) :
+    let a1 := V0.aupdate (V0.arunF (V0.ainit cfg h0) ops) ht block pre post rv
+    a1.cursor ≠ none →
+    V0.countDeliver between = (V0.keys a1.s).length →
+    ∀ k ∈ V0.keys (V0.arun a1 between).s, accepted a1.s.post (rv k) = true := by
+  intro a1 hcur hcount k hk
+  have hph := V0.aphase_runF ops (V0.aphase_init cfg h0)
+  have hrv : a1.rv = rv := by
+    show (V0.aupdate _ ht block pre post rv).rv = rv
+    unfold V0.aupdate
+    simp only
+    split <;> rfl
+  rcases V0.aupdate_phase hph ht block pre post rv with hi | hr
+  · exact absurd hi.cursor hcur
+  · obtain ⟨kept', rem', firsts', g1, g2, g3, g4⟩ :=
+      V0.arun_recheck_phase between a1 [] (V0.keys a1.s) [] hr (by omega)
+    have hrem : rem' = [] := List.length_eq_zero_iff.1 (by omega)
+    subst hrem
+    have hk' : k ∈ kept' := by
+      have := g1.keys
+      rw [this] at hk; simpa using hk
+    have := g1.kept k hk'
+    rw [g3, g4, hrv] at this
+    exact this
+
+/-- outside that discipline the clause fails: `RemoveTxByKey` of an entry whose recheck answer is
+still in flight makes the skipping loop give up at `recheckEnd`; the rejected entry `c1` stays
+(known finding `v0.async.remove-during-recheck.rejected-tx-kept`, replayed by the `hazard` stream) -/
+theorem v0_async_recheck_fails_after_remove :
+    V0.hazardRemove.cursor = none ∧ V0.hazardRemove.queue = [] ∧
+    [0xc1] ∈ V0.keys V0.hazardRemove.s ∧
+    accepted V0.hazardRemove.s.post (V0.hazardRemove.rv [0xc1]) = false := by decide
+
+/-- a recheck of two entries, the second rejected, with a new submission in between -/
+example :
+    let a1 := V0.aupdate (V0.arunF (V0.ainit exCfg0b 0)
+      [.send [1] {}, .send [2] {}, .deliver, .deliver]) 1 [] none none
+      (fun t => if t = [2] then { code := 1 } else {})
+    a1.cursor ≠ none ∧ V0.keys a1.s = [[1], [2]] ∧
+    V0.keys (V0.arun a1 [.deliver, .send [3] {}, .deliver]).s = [[1]] := by decide
+
 /-! ## v1 (TxMempool, priority mempool) -/
 
 /-- **no_duplicates** (v1): every configuration, every history. -/
@@ -422,11 +535,124 @@ theorem v1_victims_lower_priority (cfg : V1.Cfg) (h0 : Int) (ops : List V1.Op) (
   obtain ⟨_, _, _, h4, h5, _⟩ := V1.checkTx_spec hi tx v
   exact ⟨h5, h4⟩
 
+/-- **ttl_purges_exactly_expired** (v1): `purgeExpiredTxs` (run by `Update` after the committed
+transactions are removed) removes exactly the entries to which a TTL rule applies — older than
+`TTLNumBlocks` blocks, or (`TTLDuration > 0`) reported expired by the clock predicate `expired`;
+with `expired w := now − w.seq > TTLDuration` this is the code's rule. Reachable states; that the
+other invariants survive is part of `v1_no_duplicates` … `v1_cache_bounded` (their histories
+contain `Update` with every `expired`). -/
+theorem v1_ttl_purges_exactly_expired (cfg : V1.Cfg) (h0 : Int) (ops : List V1.Op) (h : Int)
+    (expired : V1.WTx → Bool) :
+    let s := V1.run (V1.init cfg h0) ops
+    ∀ w ∈ s.txs, (w.tx ∈ V1.keys (V1.purgeExpiredTxs s h expired) ↔
+      ¬ ((s.cfg.ttlNumBlocks > 0 ∧ h - w.height > s.cfg.ttlNumBlocks) ∨
+         (s.cfg.ttlDuration = true ∧ expired w = true))) :=
+  V1.purge_exact (V1.run_spec ops (V1.inv_init cfg h0)).1 h expired
+
+/-- an entry 3 blocks old with `TTLNumBlocks = 2` goes, a younger one stays -/
+example :
+    let s := V1.run (V1.init { exCfg1 with ttlNumBlocks := 2, size := 5 } 1)
+      [.check [1] {}, .update 3 [] none none (fun _ => {}) (fun _ => false), .check [2] {}]
+    V1.keys (V1.purgeExpiredTxs s 4 (fun _ => false)) = [[2]] := by decide
+
+/-- the reap order is STRICT — higher priority first, then strictly earlier arrival — whenever the
+arrival timestamps of the pooled entries are pairwise different … -/
+theorem v1_order_strict_of_distinct_timestamps (cfg : V1.Cfg) (h : Int) (ops : List V1.Op) :
+    let s := V1.run (V1.init cfg h) ops
+    (s.txs.map (·.seq)).Nodup →
+    (V1.allEntriesSorted s).Pairwise
+      (fun x y => x.prio > y.prio ∨ (x.prio = y.prio ∧ x.seq < y.seq)) := by
+  intro s hnd
+  have hperm := V1.allEntriesSorted_perm (V1.run_spec ops (V1.inv_init cfg h)).1
+  have hnd' : ((V1.allEntriesSorted s).map (·.seq)).Nodup := ((hperm.map (·.seq)).nodup_iff).2 hnd
+  have hne : (V1.allEntriesSorted s).Pairwise (fun x y => x.seq ≠ y.seq) := by
+    have := List.pairwise_map.1 hnd'
+    exact this
+  exact ((V1.allEntriesSorted_sorted s).and hne).imp (fun {x y} hxy => by
+    rcases hxy.1 with h1 | ⟨h1, h2⟩
+    · exact Or.inl h1
+    · exact Or.inr ⟨h1, by have := hxy.2; omega⟩)
+
+/-- … and it is NOT a strict order otherwise: two different entries with the same priority and the
+same timestamp are not ordered by the comparator of `allEntriesSorted` (`sort.Slice` over a map
+iteration may return them either way; known finding `v1.reap.order-undefined-on-equal-timestamps`,
+replayed by the `hazard kind=tie` stream with the timestamp hook). -/
+theorem v1_order_not_strict_on_equal_timestamps :
+    ∃ a b : V1.WTx, a ≠ b ∧ a.prio = b.prio ∧ a.seq = b.seq ∧
+      V1.reapBefore a b = false ∧ V1.reapBefore b a = false :=
+  ⟨{ tx := [1], height := 0, seq := 5, gas := 0, prio := 1, sender := "" },
+   { tx := [2], height := 0, seq := 5, gas := 0, prio := 1, sender := "" }, by decide, rfl, rfl,
+   by decide, by decide⟩
+
+/-- **senders_recorded** (v1, supporting). Every state. -/
+theorem v1_senders_recorded (s : V1.State) (tx : Bytes) (v : Verdict) (peer : Nat) :
+    ((V1.checkTxFrom s tx v peer).2 = .inCache ∨
+      ((∃ me, (V1.checkTxFrom s tx v peer).2 = .ok me) ∧ accepted s.post v = true)) →
+    ∀ e ∈ (V1.checkTxFrom s tx v peer).1.txs, e.tx = tx → peer ∈ e.peers := by
+  unfold V1.checkTxFrom
+  simp only
+  split
+  · intro _; exact V1.recordPeer_has _ tx peer
+  · split
+    · intro _; exact V1.recordPeer_has _ tx peer
+    · rename_i hacc
+      intro h
+      rcases h with h | ⟨_, h⟩
+      · simp_all
+      · exact absurd h hacc
+  · rename_i h1 h2
+    intro h
+    rcases h with h | ⟨⟨me, h⟩, _⟩
+    · exact absurd h h1
+    · exact absurd h (h2 me)
+
 /-- a transaction the application (or the post-check) rejects never changes the pool contents -/
 theorem v1_rejected_not_admitted (cfg : V1.Cfg) (h0 : Int) (ops : List V1.Op) (tx : Bytes)
     (v : Verdict) :
     let s := V1.run (V1.init cfg h0) ops
     accepted s.post v = false → V1.keys (V1.checkTx s tx v).1 = V1.keys s :=
   (V1.checkTx_spec (V1.run_spec ops (V1.inv_init cfg h0)).1 tx v).2.2.2.2.2
+
+/-! ## The byte counter with an explicit key function
+
+`MempoolV0/V1.lean` identify a transaction with its key. `Keyed` keeps the key function
+(`TxKey = sha256(tx)`) explicit for what the counter depends on (pooled txs, key index, counter):
+admissions behind the in-pool guard, removals by key as v0 `Update → removeTx(tx, …)` (counter
+reduced by the length of the ARGUMENT) and as v1 `removeTxByKey` (by the size of the ELEMENT). -/
+
+/-- v1: `SizeBytes` is exactly the total size of the pooled transactions for EVERY key function
+(even a colliding one): the element's own size is subtracted. -/
+theorem keyed_v1_bytes_exact (key : Bytes → Bytes) (ops : List Keyed.Op) :
+    (Keyed.runV1 key Keyed.empty ops).bytes = bytesOf (Keyed.runV1 key Keyed.empty ops).entries :=
+  Keyed.v1_run_exact key (ops.map Keyed.Op.tx) ops Keyed.empty (Keyed.inv_empty key _) rfl
+    (fun o ho => List.mem_map_of_mem (f := Keyed.Op.tx) ho)
+
+/-- v0: `SizeBytes` is exactly the total size of the pooled transactions, OR two different
+transactions that occur in the history have the same key (an explicit collision of the key
+function among the submitted / committed transactions). Every key function, every history. -/
+theorem keyed_v0_bytes_exact_or_collision (key : Bytes → Bytes) (ops : List Keyed.Op) :
+    (Keyed.runV0 key Keyed.empty ops).bytes = bytesOf (Keyed.runV0 key Keyed.empty ops).entries ∨
+    ∃ x ∈ ops.map Keyed.Op.tx, ∃ y ∈ ops.map Keyed.Op.tx, x ≠ y ∧ key x = key y :=
+  Keyed.v0_run_exact_or_collision key (ops.map Keyed.Op.tx) ops Keyed.empty (Keyed.inv_empty key _)
+    (Or.inl rfl) (fun o ho => List.mem_map_of_mem (f := Keyed.Op.tx) ho)
+
+/-- the collision alternative is needed for v0: with a colliding key function, committing a
+3-byte transaction removes the pooled 2-byte one and the counter goes to −1 for an empty pool -/
+theorem keyed_v0_bytes_wrong_on_collision :
+    (Keyed.runV0 (fun _ => []) Keyed.empty [.admit [1, 2], .remove [7, 8, 9]]).entries = [] ∧
+    (Keyed.runV0 (fun _ => []) Keyed.empty [.admit [1, 2], .remove [7, 8, 9]]).bytes = -1 := by
+  decide
+
+/-- `MempoolV0`'s `addTx` / `removeTx` are the keyed operations for the identity key -/
+theorem keyed_refines_v0 (s : V0.State) (tx : Bytes) (b : Bool) (h : tx ∈ s.txsMap) :
+    let a : Keyed.Acc := { entries := V0.keys s, index := s.txsMap, bytes := s.txsBytes }
+    (Keyed.removeV0 id a tx).entries = V0.keys (V0.removeTx s tx b) ∧
+    (Keyed.removeV0 id a tx).index = (V0.removeTx s tx b).txsMap ∧
+    (Keyed.removeV0 id a tx).bytes = (V0.removeTx s tx b).txsBytes := by
+  simp only [Keyed.removeV0, id, h, if_true]
+  refine ⟨?_, rfl, rfl⟩
+  rw [V0.keys_removeTx]
+  have := map_eraseP_key (fun e : Bytes => e) tx (V0.keys s)
+  simpa using this
 
 end Tmv.Props.C12
